@@ -11,6 +11,8 @@ pub mod cmsg;
 pub mod doubles;
 #[cfg(kani)]
 pub mod c11;
+#[cfg(kani)]
+pub mod c12;
 /// concrete-playback tests are written here by `./check --replay` (committed empty)
 #[cfg(kani)]
 mod playback_gen;
